@@ -22,11 +22,21 @@ use simkit::Rng;
 use std::collections::BTreeMap;
 
 pub type C = (i64, i64);
+/// codes >= EXT select extreme scalar values (type maxima and the like); they are only ever
+/// generated for Rect corners, and geometry derived from such a Rect never joins the polygon pool
+/// (inf - inf = NaN would make "closed" unsatisfiable)
+pub const EXT: i64 = 1 << 40;
 
 pub trait Scalar: CoordNum + std::fmt::Debug + 'static {
     const NAME: &'static str;
     const FLOAT: bool;
     fn from_code(c: i64) -> Self;
+    /// is this value beyond the range in which arithmetic stays finite / in range
+    fn is_extreme(self) -> bool;
+    /// false for NaN / infinities (never true for integers)
+    fn finite(self) -> bool {
+        true
+    }
     /// geo-level mutators that need float arithmetic (no-op for integer scalars)
     fn float_op(_p: &mut Polygon<Self>, _k: u8) {}
     /// geo algorithms deriving new polygons / rects (floats only)
@@ -38,7 +48,16 @@ impl Scalar for f64 {
     const NAME: &'static str = "f64";
     const FLOAT: bool = true;
     fn from_code(c: i64) -> f64 {
+        if c >= EXT {
+            return [f64::MAX, -f64::MAX, f64::MAX / 2.0, -f64::MAX / 2.0, 1e308, -1e308, f64::MIN_POSITIVE, 0.0][((c - EXT) % 8) as usize];
+        }
         c as f64 * 0.25
+    }
+    fn is_extreme(self) -> bool {
+        !(self.abs() <= 1e100)
+    }
+    fn finite(self) -> bool {
+        self.is_finite()
     }
     fn float_op(p: &mut Polygon<f64>, k: u8) {
         float_op_impl(p, k)
@@ -51,7 +70,16 @@ impl Scalar for f32 {
     const NAME: &'static str = "f32";
     const FLOAT: bool = true;
     fn from_code(c: i64) -> f32 {
+        if c >= EXT {
+            return [f32::MAX, -f32::MAX, f32::MAX / 2.0, -f32::MAX / 2.0, 3e38, -3e38, f32::MIN_POSITIVE, 0.0][((c - EXT) % 8) as usize];
+        }
         c as f32 * 0.25
+    }
+    fn is_extreme(self) -> bool {
+        !(self.abs() <= 1e30)
+    }
+    fn finite(self) -> bool {
+        self.is_finite()
     }
     fn float_op(p: &mut Polygon<f32>, k: u8) {
         float_op_impl(p, k)
@@ -61,14 +89,26 @@ impl Scalar for i32 {
     const NAME: &'static str = "i32";
     const FLOAT: bool = false;
     fn from_code(c: i64) -> i32 {
+        if c >= EXT {
+            return [i32::MAX, i32::MIN, i32::MAX / 2, i32::MIN / 2, i32::MAX - 1, i32::MIN + 1, 1, 0][((c - EXT) % 8) as usize];
+        }
         c as i32
+    }
+    fn is_extreme(self) -> bool {
+        self.unsigned_abs() > 1 << 28
     }
 }
 impl Scalar for i64 {
     const NAME: &'static str = "i64";
     const FLOAT: bool = false;
     fn from_code(c: i64) -> i64 {
+        if c >= EXT {
+            return [i64::MAX, i64::MIN, i64::MAX / 2, i64::MIN / 2, i64::MAX - 1, i64::MIN + 1, 1, 0][((c - EXT) % 8) as usize];
+        }
         c
+    }
+    fn is_extreme(self) -> bool {
+        self.unsigned_abs() > 1 << 60
     }
 }
 
@@ -201,6 +241,8 @@ pub enum Op {
     RectSetRaw { slot: usize, which_max: bool, c: C },
     RectMap { slot: usize, f: u8, fail_at: Option<usize> },
     RectToPolygon { slot: usize, via: u8 },
+    /// Rect::split_x / split_y: both halves are Rects handed out by the public API
+    RectSplit { slot: usize, y_axis: bool },
     // ---- stateless conversions
     TriangleConv { a: C, b: C, c: C },
     LineConv { a: C, b: C },
@@ -267,6 +309,7 @@ pub fn op_name(op: &Op) -> &'static str {
         Op::RectSetRaw { .. } => "Rect::set_min/set_max (arbitrary corner)",
         Op::RectMap { .. } => "Rect::(try_)map_coords_in_place",
         Op::RectToPolygon { .. } => "Rect->Polygon",
+        Op::RectSplit { .. } => "Rect::split_x/split_y",
         Op::TriangleConv { .. } => "Triangle->Polygon",
         Op::LineConv { .. } => "Line->LineString",
         Op::EnumRoundTrip { .. } => "T->Geometry->T",
@@ -778,22 +821,77 @@ impl<T: Scalar> State<T> {
             Op::RectMap { slot, f, fail_at } => {
                 if let Some(i) = self.rslot(*slot) {
                     let mf = map_fn::<T>(*f);
-                    match fail_at {
-                        None => self.rects[i].map_coords_in_place(mf),
-                        Some(fa) => {
-                            let calls = std::cell::Cell::new(0usize);
-                            let r = self.rects[i].try_map_coords_in_place(|c| {
-                                let k = calls.get();
-                                calls.set(k + 1);
-                                if k == *fa {
-                                    Err(k)
-                                } else {
-                                    Ok(mf(c))
+                    let mut r = self.rects[i];
+                    if r.min().x.is_extreme() || r.min().y.is_extreme() || r.max().x.is_extreme() || r.max().y.is_extreme() {
+                        // arithmetic on extreme corners would leave the finite domain
+                        pr.hit("extreme_rect_not_mapped");
+                        return Ok(());
+                    }
+                    let fa = *fail_at;
+                    // arithmetic on extreme integer corners may overflow and panic: not judged
+                    let res = std::panic::catch_unwind(std::panic::AssertUnwindSafe(move || {
+                        let mut errs = 0u32;
+                        match fa {
+                            None => r.map_coords_in_place(mf),
+                            Some(fa) => {
+                                let calls = std::cell::Cell::new(0usize);
+                                let rr = r.try_map_coords_in_place(|c| {
+                                    let k = calls.get();
+                                    calls.set(k + 1);
+                                    if k == fa {
+                                        Err(k)
+                                    } else {
+                                        Ok(mf(c))
+                                    }
+                                });
+                                if rr.is_err() {
+                                    errs += 1;
                                 }
-                            });
-                            if r.is_err() {
+                            }
+                        }
+                        (r, errs)
+                    }));
+                    match res {
+                        Ok((r2, errs)) => {
+                            self.rects[i] = r2;
+                            if errs > 0 {
                                 pr.hit("err_exits");
                             }
+                        }
+                        Err(_) => {
+                            let _ = crate::cli::take_last_panic();
+                            pr.hit("rect_map_panicked");
+                            self.rects.remove(i);
+                        }
+                    }
+                }
+            }
+            Op::RectSplit { slot, y_axis } => {
+                if let Some(i) = self.rslot(*slot) {
+                    let r = self.rects[i];
+                    let ya = *y_axis;
+                    // integer overflow in the midpoint panics (with overflow checks): not judged
+                    match std::panic::catch_unwind(std::panic::AssertUnwindSafe(move || if ya { r.split_y() } else { r.split_x() })) {
+                        Ok(halves) => {
+                            for h in halves {
+                                // every half is judged at once ...
+                                Self::check_rect(&h, "half returned by Rect::split")?;
+                                // ... but only all-finite halves live on: the statement is about
+                                // finite coordinates, and inf - inf = NaN later would not be
+                                let fin = h.min().x.finite() && h.min().y.finite() && h.max().x.finite() && h.max().y.finite();
+                                if !fin {
+                                    pr.hit("non_finite_half_not_pooled");
+                                    continue;
+                                }
+                                if self.rects.len() >= MAX_RECTS {
+                                    self.rects.remove(0);
+                                }
+                                self.rects.push(h);
+                            }
+                        }
+                        Err(_) => {
+                            let _ = crate::cli::take_last_panic();
+                            pr.hit("rect_split_panicked");
                         }
                     }
                 }
@@ -801,6 +899,10 @@ impl<T: Scalar> State<T> {
             Op::RectToPolygon { slot, via } => {
                 if let Some(i) = self.rslot(*slot) {
                     let r = self.rects[i];
+                    if r.min().x.is_extreme() || r.min().y.is_extreme() || r.max().x.is_extreme() || r.max().y.is_extreme() {
+                        pr.hit("extreme_rect_not_converted");
+                        return Ok(());
+                    }
                     let p: Polygon<T> = if via % 2 == 0 { r.to_polygon() } else { Polygon::from(r) };
                     let (mn, mx) = (r.min(), r.max());
                     let ccw = [
@@ -1143,16 +1245,30 @@ pub fn gen_op(rng: &mut Rng) -> Op {
                 Op::GeoDerive { slot, k: rng.below(9) as u8 }
             }
         }
-        33 => Op::RectNew { a: gen_c(rng), b: gen_c(rng) },
+        33 => {
+            if rng.chance(1, 10) {
+                // extreme corners (type maxima): spans that overflow the scalar
+                Op::RectNew { a: (EXT + rng.below(8) as i64, EXT + rng.below(8) as i64), b: (EXT + rng.below(8) as i64, EXT + rng.below(8) as i64) }
+            } else {
+                Op::RectNew { a: gen_c(rng), b: gen_c(rng) }
+            }
+        }
         34 => {
             if rng.chance(1, 2) {
                 Op::RectSet { slot, which_max: rng.chance(1, 2), c: gen_c(rng) }
             } else {
-                Op::RectSetRaw { slot, which_max: rng.chance(1, 2), c: gen_c(rng) }
+                let c = if rng.chance(1, 8) { (EXT + rng.below(8) as i64, EXT + rng.below(8) as i64) } else { gen_c(rng) };
+                Op::RectSetRaw { slot, which_max: rng.chance(1, 2), c }
             }
         }
         35 => Op::RectMap { slot, f: rng.below(5) as u8, fail_at: if rng.chance(1, 2) { Some(rng.below(3)) } else { None } },
-        36 => Op::RectToPolygon { slot, via: rng.below(2) as u8 },
+        36 => {
+            if rng.chance(1, 2) {
+                Op::RectToPolygon { slot, via: rng.below(2) as u8 }
+            } else {
+                Op::RectSplit { slot, y_axis: rng.chance(1, 2) }
+            }
+        }
         37 => match rng.below(2) {
             0 => Op::TriangleConv { a: gen_c(rng), b: gen_c(rng), c: gen_c(rng) },
             _ => Op::LineConv { a: gen_c(rng), b: gen_c(rng) },
